@@ -197,7 +197,8 @@ def _shape(c):
     if c["kind"] == "mm":
         return "merge_modified"
     types = sorted({k["type"] for k in c["list"]})
-    return "%s:%s" % ("+".join(types) if len(types) <= 1 else "mixed-list", "recurse" if c["recurse"] else "exact")
+    return "%s:%s" % ("+".join(types).replace(" ", "_") if len(types) <= 1 else "mixed-list",
+                      "recurse" if c["recurse"] else "exact")
 
 
 def run(ctx):
